@@ -61,6 +61,30 @@ def judge(ctx, res, stream):
                                   {'seed': r['seed'], 'pair': name, 'what': v['what'],
                                    'n_added': len(added)})
                 continue
+            if name == 'cno':
+                lost = base - other
+                if lost:
+                    ctx.add_violation(f'enabling --coding-novel-orf removed peptide(s) {sorted(lost)[:3]}',
+                                      cv_checks.replay_of(r, kind='cno', what=v['what']))
+                added = other - base
+                noorf = [p for p in sorted(added)
+                         if not any(any(x.startswith('ORF') for x in e.split('|'))
+                                    for h in v['headers'].get(p, []) for e in h.split(' '))]
+                if noorf:
+                    ctx.add_violation(
+                        f'peptide {noorf[0]} appears only with --coding-novel-orf but no header entry '
+                        f'{v["headers"].get(noorf[0])} carries an ORF tag',
+                        cv_checks.replay_of(r, kind='cno-attribution', what=v['what']))
+                unreal = [p for p in sorted(added) if p not in v.get('S_A', set()) and p not in r['S_A']]
+                if unreal and not cv_checks.has_nested(r):
+                    ctx.add_violation(
+                        f'with --coding-novel-orf callVariant reports {unreal[:3]}, not a digestion product '
+                        'of any compatible combination read from any ATG',
+                        cv_checks.replay_of(r, kind='cno-unrealizable', what=v['what']))
+                if added:
+                    ctx.evaluated(stream + ':cno', str(r['seed']), True,
+                                  {'seed': r['seed'], 'pair': 'cno', 'n_added': len(added)})
+                continue
             # relaxed configuration
             S2 = v.get('S_A', set())
             lost = base - other
@@ -156,7 +180,7 @@ def restrict_worker(job):
 def run(ctx: common.Ctx):
     ctx.coverage['rule'] = (
         'paired REAL runs on generated inputs: (a) same input under a configuration and a relaxed one '
-        '(miscleavage +1/+2, min-length -1..-3, max-length +1..+10, min-mw -100/-200, SECT on, W2F on), '
+        '(miscleavage +1/+2, min-length -1..-3, max-length +1..+10, min-mw -100/-200, SECT on, W2F on, --coding-novel-orf on for coding transcripts: superset, added peptides carry an ORF tag and are products of some combination read from some ATG), '
         '(b) a random strict subset of the GVF records vs all records, (b2) a GVF FILE added: inputs with small records + one fusion + one circRNA of the donor in three files, run without the fusion file / without the circRNA file vs all files, (c) --noncanonical-transcripts and '
         '--backsplicing-only vs the unrestricted run on multi-unit inputs with fusions and circRNAs. '
         'Relaxed/added runs must contain the stricter run except for peptides the Lean definition itself '
@@ -166,7 +190,7 @@ def run(ctx: common.Ctx):
     base = dict(vary=True, per_tx=(2, 7), max_size=6, window=24, witness=False, exception=None,
                 as_frac=0.3)
     res = cv_checks.explore(ctx, ctx.n(170, 3000),
-                            dict(base, variations=['misc', 'minlen', 'maxlen', 'minmw', 'sect', 'w2f', 'addvar']))
+                            dict(base, variations=['misc', 'minlen', 'maxlen', 'minmw', 'sect', 'w2f', 'addvar', 'cno']))
     s1 = dict(ctx.coverage['worker_stats'])
     judge(ctx, res, 'config-pairs')
     res = cv_checks.explore(ctx, ctx.n(60, 1000),
